@@ -146,6 +146,15 @@ static Val load_conc(State &s, const Obj &o, uint64_t off, unsigned bits, bool w
 
 static const unsigned MAX_SYM_TARGETS = 1024;
 
+// an access whose symbolic offset has more feasible targets than the engine enumerates: the path is given up
+// (counted with the solver-unknown paths when partial exploration is allowed, otherwise the run is inconclusive)
+static void too_many_targets(State &s, const char *what)
+{
+  if (OPT.tolerate_unknown) { ST.unknown_paths++; throw PathEnd{"too many targets"}; }
+  INCONCLUSIVE = true; INCONCLUSIVE_WHY = std::string(what) + ": symbolic offset with more than " + std::to_string(MAX_SYM_TARGETS) + " targets";
+  throw PathEnd{"too many targets"};
+}
+
 static Val do_load(State &s, const Val &p, unsigned bits, bool want_ptr)
 {
   uint64_t size = (bits + 7) / 8;
@@ -163,7 +172,7 @@ static Val do_load(State &s, const Val &p, unsigned bits, bool want_ptr)
     z3::expr cat = support_cat(sp);
     std::map<uint64_t, std::vector<uint64_t>> byoff;
     for (uint64_t a : as) byoff[eval_under(sp, *p.e, a)].push_back(a);
-    if (byoff.size() > MAX_SYM_TARGETS) die("symbolic load offset with more than %u targets in %s", MAX_SYM_TARGETS, o.name.c_str());
+    if (byoff.size() > MAX_SYM_TARGETS) too_many_targets(s, "load");
     for (auto &kv : byoff)
     {
       z3::expr c = Z.bool_val(false);
@@ -175,7 +184,7 @@ static Val do_load(State &s, const Val &p, unsigned bits, bool want_ptr)
   {
     if (OPT.verbose) fprintf(stderr, "symx: enumerating load offset in %s: %s\n", o.name.c_str(), p.e->to_string().substr(0, 600).c_str());
     std::vector<uint64_t> offs = feasible_values(s, *p.e, MAX_SYM_TARGETS);
-    if (offs.size() > MAX_SYM_TARGETS) die("symbolic load offset with more than %u targets in %s", MAX_SYM_TARGETS, o.name.c_str());
+    if (offs.size() > MAX_SYM_TARGETS) too_many_targets(s, "load");
     for (uint64_t off : offs) targets.push_back({*p.e == Z.bv_val(off, 64), off});
   }
   if (targets.empty()) throw PathEnd{"infeasible"};
@@ -258,7 +267,7 @@ static void do_store(State &s, const Val &p, const Val &v, unsigned bits)
   if (ro->readonly) { violation(s, "rostore", "store to read-only object " + ro->name, nullptr); throw PathEnd{"ro store"}; }
   if (p.conc) { store_conc(s, wobj(s, p.obj), p.c, v, bits); return; }
   std::vector<uint64_t> offs = feasible_values(s, *p.e, MAX_SYM_TARGETS);
-  if (offs.size() > MAX_SYM_TARGETS) die("symbolic store offset with more than %u targets", MAX_SYM_TARGETS);
+  if (offs.size() > MAX_SYM_TARGETS) too_many_targets(s, "store");
   if (offs.size() == 1) { store_conc(s, wobj(s, p.obj), offs[0], v, bits); return; }
   if (v.isptr && v.obj >= 0)
   {
